@@ -1,0 +1,30 @@
+// Copyright ©2024 The Gonum Authors. All rights reserved.
+// Use of this source code is governed by a BSD-style
+// license that can be found in the LICENSE file.
+
+//go:build verif
+
+package gonum
+
+import "sync/atomic"
+
+var verifBlockHook atomic.Pointer[func(double bool, i, j, leni, lenj int)]
+
+// VerifSetBlockHook installs f to be called at the start of every block
+// goroutine of the parallel Dgemm (double=true) and Sgemm (double=false)
+// with the block's origin and extent in C (nil removes it). It exists only
+// with the verif build tag and is used by the runtime monitors in /verif to
+// record which goroutine owns which block of C and to perturb the schedule.
+func VerifSetBlockHook(f func(double bool, i, j, leni, lenj int)) {
+	if f == nil {
+		verifBlockHook.Store(nil)
+		return
+	}
+	verifBlockHook.Store(&f)
+}
+
+func verifBlock(double bool, i, j, leni, lenj int) {
+	if f := verifBlockHook.Load(); f != nil {
+		(*f)(double, i, j, leni, lenj)
+	}
+}
